@@ -211,7 +211,9 @@ def linear_cg(
     else:
         # precon_residual{0} = M^-1 residual_{0}
         precond_residual = preconditioner(residual)
-        curr_conjugate_vec = precond_residual
+        # The search direction is updated in place below; it must own its memory, otherwise a preconditioner
+        # that returns its argument (e.g. `lambda x: x`) or a broadcast view makes it alias the residual.
+        curr_conjugate_vec = precond_residual.clone()
         residual_inner_prod = precond_residual.mul(residual).sum(-2, keepdim=True)
 
         # Define storage matrices
